@@ -203,9 +203,6 @@ theorem advance_sat {s : St} (hs : WF s) : (advance s).Sat (fun s' => Step s s')
 
 /-! ### token readers -/
 
-theorem advanceOnLine_sat {s : St} (hs : WF s) : (advanceOnLine s).Sat (fun s' => Step s s') :=
-  scan_sat _ _ s hs (by have := hs.rest_le_len; omega)
-
 /-- postcondition of the token readers: a later state; a non-empty token means progress -/
 def TokPost (s : St) (r : Bytes × St) : Prop := Step s r.2 ∧ (r.1 ≠ [] → s.pos < r.2.pos)
 
@@ -567,21 +564,15 @@ theorem readError_sat {s : St} (hs : WF s) : (readError s).Sat (fun r => Step s 
   simp only at h2 ⊢
   split
   · trivial
-  · refine (advanceOnLine_sat h2.1).bind (fun s3 h3 => ?_)
-    have h03 := (h1.trans h2).trans h3
-    refine (readType_sat h3.1).bind ?_
-    rintro ⟨t, s4⟩ h4
-    cases t with
-    | none =>
-      simp only
-      split
-      · trivial
-      · rename_i hp; simp at hp
-        obtain ⟨a, b, c⟩ := h4
-        rcases c with c | ⟨_, c2⟩
-        · exact h03.trans ⟨c, a, b⟩
-        · simp at c2; omega
-    | some t => exact h03.trans h4.wf_of_some
+  · split
+    · exact h1.trans h2
+    · refine (advance_sat h2.1).bind (fun s3 h3 => ?_)
+      have h03 := (h1.trans h2).trans h3
+      refine (readType_sat h3.1).bind ?_
+      rintro ⟨t, s4⟩ h4
+      cases t with
+      | none => trivial
+      | some t => exact h03.trans h4.wf_of_some
 
 theorem kw_ne_nil_of_eq {kw k : Bytes} (h : kw = k) (hk : k ≠ []) : kw ≠ [] := h ▸ hk
 
